@@ -32,6 +32,10 @@ def parse(ans):
     return d
 
 
+def canon_of(t, n):
+    return t["aliases"].get(n, n)
+
+
 def lst(s):
     return s.split(",") if s else []
 
@@ -111,6 +115,18 @@ class C18(PropBase):
                 cases.append("%s %s S:%s %d" % (variant, u, ",".join(t["registers"]), val()))
                 cases.append("%s %s S:%s %d" % (variant, u, rng.choice(names), val()))
                 dist["unknown_names"] += 4
+            # ASCII-case variants of the type's own names and aliases: unknown names (the tables are case-sensitive)
+            variants_seen = set(names)
+            for n in names:
+                for u in (n.upper(), n.capitalize(), n[:-1] + n[-1:].upper(), n.swapcase()):
+                    if u in variants_seen:
+                        continue
+                    variants_seen.add(u)
+                    cases.append("%s %s A %d" % (variant, u, val()))
+                    if tier != "quick" or canon_of(t, n) in (canon_of(t, t["sp_name"]), canon_of(t, t["ip_name"])):
+                        cases.append("%s %s S:%s %d" % (variant, u, n, val()))
+                        cases.append("%s %s S:%s %d" % (variant, u, ",".join(t["registers"]), val()))
+                    dist["case_variants"] = dist.get("case_variants", 0) + 1
             # F-C18b class: validity sets holding names the context does not know
             for u in UNKNOWN[1:6]:
                 cases.append("%s %s S:%s %d" % (variant, u, u, val()))
